@@ -768,6 +768,7 @@ Theorem reads_are_identity_file : forall sizes w s w' s' tr cs stop,
   f_pos s' = f_pos s + blen (concat cs) + blen lost /\
   concat cs ++ lost = bsub (f_pos s) (f_pos s') (f_data s).
 Proof.
+  clear Hsh.   (* holds for every shape of the loop; keep lia from picking the hypothesis up *)
   induction sizes as [|n rest IH]; intros w s w' s' tr cs stop; cbn [Wrap.run_reads].
   - intros H; inversion H; subst. cbn. rewrite bsub_same. repeat split. lia.
   - destruct (f_closed s) eqn:Hc.
